@@ -5,6 +5,7 @@ use std::io::{BufRead, Write};
 mod ops_blake;
 mod ops_chacha;
 mod ops_conc;
+mod ops_which;
 #[cfg(not(feature = "nostd_build"))]
 mod ops_groestl;
 /// groestl-aesni does not compile without `std` and is not part of the no-std manifest variant
@@ -112,6 +113,7 @@ fn step(ctx: &mut Ctx, toks: &[&str]) -> String {
         ["tf", ..] | ["tfl", ..] => ops_threefish::step(toks),
         ["skein", ..] => ops_skein::step(&mut ctx.skein, toks),
         ["conc", ..] => ops_conc::step(toks),
+        ["which", ..] => ops_which::step(toks),
         _ => "bad-op".into(),
     }
 }
